@@ -124,6 +124,41 @@ def param_pools(model, owner, func, cls):
     return names, pools
 
 
+RECORD_AT = {'quick': {2, 25, 180}, 'thorough': {2, 9, 25, 70, 180, 400, 900, 1800, 3500}}
+RECORDS = []
+RECORD_SCOPE = ['quick']
+
+
+def encode_result(v, model, depth=0):
+    """JSON form of a return value for the CPython cross-check of the verifier's translation"""
+    if v is None or isinstance(v, (bool, int, str)):
+        return {'v': v}
+    if isinstance(v, float):
+        from fractions import Fraction
+        fr = Fraction(v)
+        return {'float': [fr.numerator, fr.denominator]}
+    tn = type(v).__name__
+    if tn == 'Feature':
+        return {'feature': v.name} if sum(1 for f in M.all_features(model) if f.name == v.name) == 1 else {'unsupported': 'ambiguous feature name'}
+    if tn == 'Relation':
+        try:
+            return {'relation': [v.parent.name, [id(r) for r in v.parent.relations].index(id(v))]}
+        except Exception:
+            return {'unsupported': 'relation not in its parent'}
+    if tn == 'FeatureModel':
+        return {'model': True}
+    if tn == 'Constraint':
+        ids = [id(c) for c in model.ctcs]
+        return {'ctc': ids.index(id(v))} if id(v) in ids else {'unsupported': 'new constraint'}
+    if tn in ('Node',):
+        return {'node': M.describe_node(v)}
+    if tn == 'AST':
+        return {'node': M.describe_node(v.root)}
+    if isinstance(v, (list, tuple)) and depth < 3:
+        return {'list' if isinstance(v, list) else 'tuple': [encode_result(x, model, depth + 1) for x in v]}
+    return {'unsupported': tn}
+
+
 def check_contract(cls, models_iter, budget, stats, failures, max_fail=5):
     path, qualname = cls._path, cls._qualname
     mod, owner, func = resolve_target(path, qualname)
@@ -216,6 +251,10 @@ def check_contract(cls, models_iter, budget, stats, failures, max_fail=5):
                       if not ok:
                           fail = {'clause': n, 'result': repr(result)[:300]}
                           break
+              if fail is None and st['evaluations'] in RECORD_AT[RECORD_SCOPE[0]] and '_history' not in desc and pure:
+                  RECORDS.append({'function': key, 'contract': cls.__name__, 'model': desc,
+                                  'args': {k: describe_arg(v, model) for k, v in args.items()},
+                                  'result': encode_result(result, model)})
               if fail is not None:
                   kn = None
                   for n, f in known:
@@ -246,6 +285,10 @@ def describe_arg(v, model):
         return {'ctc': [id(c) for c in model.ctcs].index(id(v))}
     if tn == 'Element':
         return {'elem': elem_json(v)}
+    if tn == 'AST':
+        return {'ast': M.describe_node(v.root)}
+    if tn == 'Node':
+        return {'node': M.describe_node(v)}
     if type(v).__module__.startswith('flamapy.'):
         return {'new': f'{type(v).__module__}:{type(v).__name__}'}
     return {'value': repr(v)}
@@ -291,6 +334,7 @@ def main():
     t0 = time.time()
     stats, failures = {}, []
     budget = a.budget or (3000 if a.scope == 'quick' else 60000)
+    RECORD_SCOPE[0] = 'quick' if a.scope == 'quick' else 'thorough'
     want = set(x for x in a.funcs.split(',') if x)
     for (path, qualname), classes in api.REGISTRY.items():
         for cls in classes:
@@ -304,7 +348,7 @@ def main():
                 check_contract(cls, it, budget, stats, failures)
             except Exception as e:  # noqa: BLE001
                 stats.setdefault(f'{path}:{qualname}', {})['error'] = f'{type(e).__name__}: {e}\n{traceback.format_exc()[-1500:]}'
-    out = {'prop': a.prop, 'scope': a.scope, 'seed': a.seed, 'stats': stats, 'failures': failures,
+    out = {'prop': a.prop, 'scope': a.scope, 'seed': a.seed, 'stats': stats, 'failures': failures, 'records': RECORDS,
            'seconds': round(time.time() - t0, 2)}
     text = json.dumps(out, indent=1, default=str)
     if a.out:
